@@ -363,12 +363,89 @@ func c04Scenarios(tier string) []Scenario {
 	out = append(out, c04IsolationScenario(false), c04IsolationScenario(true))
 	out = append(out, c04CancelledScenario(false), c04CancelledScenario(true))
 	out = append(out, heldAcrossClunkScenario("C04"))
+	for i, k := range [][2]string{{"attach", "attach"}, {"walk", "walk"}, {"attach", "walk"}, {"clone", "attach"}, {"auth", "attach"}} {
+		out = append(out, c04SameNewFid(k, i%2 == 0, i%3, 2))
+	}
 	ud := 4
 	if tier == "thorough" {
 		ud = 5
 	}
 	out = append(out, c04UfsValidity(true, ud), c04UfsValidity(false, ud))
 	return out
+}
+
+// c04SameNewFid: two requests written together both try to bind the same free fid
+// number (two attaches, two walks, an attach and a walk, an auth and an attach): in every
+// schedule exactly one binds it, the other is told the fid is in use; the number then
+// designates what the winner made, and every fid the implementation was shown is
+// destroyed exactly once when the connection goes.
+func c04SameNewFid(kinds [2]string, dotu bool, maxpend, P int) Scenario {
+	var s *sess
+	var r1, r2 *wire.Msg
+	name := fmt.Sprintf("two requests binding the same free fid: %s + %s maxpend=%d dotu=%v", kinds[0], kinds[1], maxpend, dotu)
+	mk := func(k string, tag uint16) *wire.Msg {
+		switch k {
+		case "attach":
+			return tattach(tag, 5, wire.NOFID, "glenda", 7, dotu)
+		case "walk":
+			return twalk(tag, 0, 5, "d")
+		case "clone":
+			return twalk(tag, 0, 5)
+		case "auth":
+			return &wire.Msg{Type: wire.Tauth, Tag: tag, Afid: 5, Uname: "glenda", NUname: 7, HasNUname: dotu}
+		}
+		panic(k)
+	}
+	body := func() {
+		s = newSess(SrvOpt{Msize: 256, Dotu: dotu, Maxpend: maxpend, Auth: kinds[0] == "auth" || kinds[1] == "auth"})
+		s.setupN = len(s.c.Collect())
+		vs.Window(true)
+		s.c.Send(dotu, mk(kinds[0], 50), mk(kinds[1], 51))
+		vs.Idle()
+		vs.Window(false)
+		r1, r2 = nil, nil
+		for _, f := range s.c.Collect()[s.setupN:] {
+			if f.Msg != nil && f.Msg.Tag == 50 {
+				r1 = f.Msg
+			}
+			if f.Msg != nil && f.Msg.Tag == 51 {
+				r2 = f.Msg
+			}
+		}
+		s.c.Rpc(&wire.Msg{Type: wire.Tclunk, Tag: 60, Fid: 5})
+		s.c.End.Close()
+		vs.Idle()
+	}
+	check := stdCheck("C04", func(x *vs.Exec) *Viol {
+		detail := map[string]any{"fslog": strings.Split(s.fs.logString(), "\n")}
+		if r1 == nil || r2 == nil {
+			return &Viol{Sig: "C04/same-new-fid/no-reply", Msg: fmt.Sprintf("replies: %v, %v", r1, r2), Detail: detail}
+		}
+		ok1, ok2 := r1.Type != wire.Rerror, r2.Type != wire.Rerror
+		if ok1 && ok2 {
+			return &Viol{Sig: "C04/same-new-fid/both-bound", Msg: fmt.Sprintf("two requests written together both bound the free fid 5: %s and %s - one of them must be told that the fid is in use", r1, r2), Detail: detail}
+		}
+		if !ok1 && !ok2 {
+			return &Viol{Sig: "C04/same-new-fid/none-bound", Msg: fmt.Sprintf("neither request could bind the free fid 5: %s and %s", r1, r2), Detail: detail}
+		}
+		// every fid identity the implementation was shown is destroyed exactly once
+		shown, destroyed := map[int]bool{}, map[int]int{}
+		for _, e := range s.fs.Log {
+			if e.Token != 0 && e.Kind == "call" {
+				shown[e.Token] = true
+			}
+			if e.Kind == "destroy" {
+				destroyed[e.Token]++
+			}
+		}
+		for t := range shown {
+			if destroyed[t] != 1 {
+				return &Viol{Sig: fmt.Sprintf("C04/same-new-fid/destroyed-%d-times", destroyed[t]), Msg: fmt.Sprintf("the implementation was shown a fid (identity %d) that was reported destroyed %d times by the end of the connection", t, destroyed[t]), Detail: detail}
+			}
+		}
+		return nil
+	}, nil)
+	return vsScenario(&VsSpec{Name: name, Body: body, Check: check, P: P})
 }
 
 // two connections: fid numbers are private to their connection
